@@ -66,6 +66,65 @@ def norm_noleader(line):
     return " ".join(f)
 
 
+def parse_midres(il):
+    """midres <id> <verdict> <n> (<name> <nullable> <lr> <leader> f<flags>)*n <nverts> (<vertex> <k> <target>*k)* ->
+    (verdict, {name: (nullable, lr, leader)}, {vertex: [targets]}) or None"""
+    f = il.split(" ")
+    try:
+        v = f[2]
+        n = int(f[3])
+        rules = {}
+        i = 4
+        for _ in range(n):
+            rules[f[i]] = (f[i + 1], f[i + 2], f[i + 3])
+            i += 5
+        nv = int(f[i])
+        i += 1
+        graph = {}
+        for _ in range(nv):
+            name, k = f[i], int(f[i + 1])
+            graph[name] = f[i + 2:i + 2 + k]
+            i += 2 + k
+        return v, rules, graph
+    except (IndexError, ValueError):
+        return None
+
+
+def uncovered_cycle(il):
+    """For a grammar accepted with left-recursion support (verdict ok1): is there a cycle of the builder's own first graph
+    that passes through NO leader? Such a cycle is re-entered at the same offset without bound by the generated parser
+    (theorem C08_cycle_without_leader_has_no_ranking; with every cycle covered: C08_left_recursive_parse_terminates).
+    -> list of rule names on such a cycle, or None"""
+    r = parse_midres(il)
+    if r is None or r[0] != "ok1":
+        return None
+    _, rules, graph = r
+    leaders = {n for n, (_, lr, ld) in rules.items() if lr == "1" and ld == "1"}
+    # depth-first search in the graph without the edges into leaders
+    color = {}
+    for root in graph:
+        if root in color:
+            continue
+        stack = [(root, iter([t for t in graph.get(root, []) if t not in leaders]))]
+        color[root] = 1
+        path = [root]
+        while stack:
+            node, it = stack[-1]
+            nxt = next(it, None)
+            if nxt is None:
+                color[node] = 2
+                stack.pop()
+                path.pop()
+                continue
+            if color.get(nxt) == 1:
+                return path[path.index(nxt):] if nxt in path else [nxt]
+            if nxt not in color:
+                color[nxt] = 1
+                path.append(nxt)
+                stack.append((nxt, iter([t for t in graph.get(nxt, []) if t not in leaders])))
+    return None
+
+
 def classify(cl, il, ml):
     """-> None | ('viol', text) | ('known', id, text) | ('obs', id)"""
     a, extra = split_model(ml)
@@ -167,6 +226,14 @@ def run_c07(prop, cfg, tier, seed):
             if f[3] != f[4]:
                 viol.append((cl, dl, "", "builder.PrepareGrammar gives verdict %s for the grammar and %s after inserting shadowed (earlier, never executed) duplicate definitions of non-first rules: the analysis does not look at the definitions that the generated parser runs" % (f[3], f[4])))
 
+    # ---- leaders: every cycle of the first graph of a grammar accepted with left-recursion support passes through one
+    # (put first: these are concrete grammars on which the generated parser recurses without bound)
+    lead = []
+    for cl, il in zip(cases, impl):
+        cyc = uncovered_cycle(il)
+        if cyc:
+            lead.append((cl, il, "", "accepted with -support-left-recursion although the cycle %s of the first graph passes through no leader rule: the generated parser re-enters these rules at the same offset without bound (C08_cycle_without_leader_has_no_ranking)" % " -> ".join(bytes.fromhex(x[1:]).decode("utf8", "replace") for x in cyc)))
+    viol = lead + viol
     # ---- the consequence clause: a parser generated WITHOUT left-recursion support, for a grammar without a
     # same-position cycle, returns on every input (no unbounded re-entry). Generated non-left-recursive cases on the
     # real runtime (template variants without the left-recursion code) against the runtime model: only termination
